@@ -369,6 +369,9 @@ def run(chk, repo):
     from rules.shared import truthy_numeric
     chk.clauses.append('C11.o (shared R-TRUTHY) no numeric parameter (reading frame, index, offset: 0 is a value) is tested by truthiness instead of `is None`')
     truthy_numeric(chk, repo, 'C11.o', ['gtf', 'SeqFeature'])
+    from rules.shared import readonly_inputs
+    chk.clauses.append('C11.p (R-EFFECT) writing an annotation as GTF only reads the models: no feature list of a gene / transcript model is extended, sorted or otherwise changed through an alias (a second write, or sequence extraction after a write, sees the same models)')
+    readonly_inputs(chk, repo, 'C11.p', ['gtf.GtfIO:write', 'gtf.GtfIO:to_gtf_record'], 'writing GTF leaves the annotation models unchanged')
 
 
 def exon_loop_inverse(chk, repo, rid):
